@@ -1,18 +1,18 @@
 SPECIFICATION Spec
 CONSTANTS
-  NAMES = {"n1"}
+  NAMES = {"n1", "n2"}
   PEERS = {"p1"}
   Thr = 1
   CheckMode = "once"
-  ForgetMode = "name"
-  RenewMode = "sticky"
-  W = 3
+  ForgetMode = "peer"
+  RenewMode = "restart"
+  W = 2
   AccN = 6
-  MaxArr = 3
-  MaxT = 2
+  MaxArr = 2
+  MaxT = 1
   REPS = {1}
   Staged = FALSE
   PsFree = FALSE
   InitSets = {{"p1"}}
 VIEW View
-INVARIANTS InvReported
+INVARIANTS InvAlertOnce
